@@ -425,6 +425,92 @@ func agedTracker(run *mc.Run, m int) int {
 	return len(h)
 }
 
+// linear judges one long history step by step with the reference model and the oracles of cfg.
+func linear(run *mc.Run, cfg *Config, h []Op, label, what string) int {
+	s := &searcher{cfg: cfg, run: run, seen: map[string]bool{}}
+	w := NewWorld(cfg.Sess, cfg.Logins)
+	defer w.Close()
+	sp := NewSpec(cfg.Sess, cfg.Logins)
+	for i, o := range h {
+		before := w.Rec.Len()
+		err, pan := safeApply(w, o)
+		must, may := sp.Apply(o)
+		class, msg := "", ""
+		if pan != "" {
+			class, msg = "panic-or-deadlock:"+o.K, pan
+		} else {
+			class, msg = s.judge(w, sp, o, before, must, may, err)
+		}
+		if class != "" {
+			if len(msg) > 600 {
+				msg = msg[:600] + "..."
+			}
+			run.Violation(fmt.Sprintf("%s:%s:%s", run.Prop, label, class), map[string]any{"config": label, "failing_step": i, "step": o.String()},
+				fmt.Sprintf("%s; step %d %s: %s", what, i, o, msg))
+			break
+		}
+	}
+	return len(h)
+}
+
+// manyWaitingLogins: a login waits for its LOGIN record while m other logins (distinct pids, no sessions yet: a
+// burst of connections, a scan) arrive after it; then its LOGIN record comes - well inside the staleness window,
+// no cleanup in between - and correlates; so does the session of the last of the m.
+func manyWaitingLogins(run *mc.Run, m int) int {
+	ev3 := []auparse.AuditMessageType{tLOGIN, tEV, tDISP}
+	cfg := &Config{Name: fmt.Sprintf("%s-many-waiting-logins-%d", run.Prop, m), OSeq: true, OIdent: true,
+		Sess: []SessDef{{ID: "1", PID: "101", Events: ev3}, {ID: "2", PID: fmt.Sprint(300000 + m), Events: ev3}}}
+	cfg.Logins = append(cfg.Logins, LoginDef{PID: 101})
+	h := []Op{{K: "L", I: 0}}
+	for i := 1; i <= m; i++ {
+		cfg.Logins = append(cfg.Logins, LoginDef{PID: 300000 + i})
+		h = append(h, Op{K: "L", I: i})
+	}
+	h = append(h, Op{K: "A", I: 0, J: 0}, Op{K: "A", I: 0, J: 1}, Op{K: "A", I: 1, J: 0}, Op{K: "A", I: 1, J: 1}, Op{K: "A", I: 0, J: 2}, Op{K: "A", I: 1, J: 2})
+	return linear(run, cfg, h, "many-waiting-logins", fmt.Sprintf("%d logins waiting at once, none older than this run", m+1))
+}
+
+// heldTogether: eight sessions are held at once, of very different sizes (1 ... 70 records), created in one order
+// and filled in an interleaved one, two of them cron-like (no login ever); then the logins arrive, oldest session
+// first in one run, youngest first in the other. Every session's records come out under its own login, in order,
+// and nothing of the cron-like ones.
+func heldTogether(run *mc.Run, youngestFirst bool) int {
+	sizes := []int{2, 40, 3, 70, 17, 16, 15, 33}
+	cfg := &Config{Name: fmt.Sprintf("%s-held-together-%v", run.Prop, youngestFirst), OSeq: true, OIdent: true, ONoLeak: true}
+	for i, n := range sizes {
+		evs := []auparse.AuditMessageType{tLOGIN}
+		for k := 1; k < n; k++ {
+			evs = append(evs, tEV)
+		}
+		cfg.Sess = append(cfg.Sess, SessDef{ID: fmt.Sprint(500 + i), PID: fmt.Sprint(600 + i), Events: evs})
+		if i != 2 && i != 5 { // sessions 2 and 5 never get a login
+			cfg.Logins = append(cfg.Logins, LoginDef{PID: 600 + i})
+		}
+	}
+	var h []Op
+	for i := range sizes {
+		h = append(h, Op{K: "A", I: i, J: 0})
+	}
+	for j := 1; j < 70; j++ { // round robin, youngest session first
+		for i := len(sizes) - 1; i >= 0; i-- {
+			if j < sizes[i]-1 {
+				h = append(h, Op{K: "A", I: i, J: j})
+			}
+		}
+	}
+	for k := range cfg.Logins {
+		li := k
+		if youngestFirst {
+			li = len(cfg.Logins) - 1 - k
+		}
+		h = append(h, Op{K: "L", I: li})
+	}
+	for i, n := range sizes { // the last record of each, after the logins
+		h = append(h, Op{K: "A", I: i, J: n - 1})
+	}
+	return linear(run, cfg, h, "held-together", "eight sessions held at once (2 ... 70 records each, two of them without login)")
+}
+
 // runBFS is the entry point for the history checks.
 func runBFS(run *mc.Run) int {
 	if run.Replay != "" {
@@ -501,6 +587,22 @@ func runBFS(run *mc.Run) int {
 		cov.Transitions += ops
 		cov.Evaluations += ops
 		per = append(per, map[string]any{"config": "long-held-session (linear history)", "events_held_before_login": n, "operations": ops})
+	}
+	if run.Prop == "C16" {
+		m := 33000 // past 2^15 waiting at once
+		if run.Thorough() {
+			m = 70000 // past 2^16
+		}
+		ops := manyWaitingLogins(run, m)
+		cov.Transitions += ops
+		cov.Evaluations += ops
+		per = append(per, map[string]any{"config": "many-waiting-logins (linear history)", "logins_waiting_at_once": m + 1, "operations": ops})
+	}
+	if run.Prop == "C04" || run.Prop == "C01" || run.Prop == "C02" {
+		ops := heldTogether(run, false) + heldTogether(run, true)
+		cov.Transitions += ops
+		cov.Evaluations += ops
+		per = append(per, map[string]any{"config": "held-together (two linear histories)", "sessions_held_at_once": 8, "operations": ops})
 	}
 	cov.Extra["configs"] = per
 	cov.Assumptions = []string{"alphabet bounded as listed in configs; ids are not reused inside an alphabet except where C09 says so",
